@@ -2383,6 +2383,11 @@ class Engine:
             return
         if out[0] == 'break':
             self._check_loop_frame(s, s3, spec, ordn)
+            if getattr(spec, 'complete', False):
+                self.oblige(s3, 'loop-complete', 'loop%d:runs-to-completion' % ordn,
+                            z3.BoolVal(False), props=getattr(spec, 'props', None), line=s.lineno,
+                            note='the loop is left through `break` before every element was '
+                                 'visited')
             yield self._loop_exit(s3, st0), None
         else:
             self._check_loop_frame(s, s3, spec, ordn)
